@@ -3,7 +3,7 @@ name guards of variable_define / variable_assign / op_assign (fragments);
 Kani on the storage separation of detach_variable_value."""
 import os, re
 import vlib
-from vlib import read_repo, extract_fn, verus_fn, verus_canary, verus_file, VerusUnit, AnchorLost, between, GEN
+from vlib import read_repo, extract_fn, verus_fn, verus_canary, verus_file, VerusUnit, AnchorLost, between, GEN, match_brace
 
 ST_RS = "src/core/src/program/symbol_table.rs"
 STMT_RS = "src/interpreter/src/statements.rs"
@@ -401,7 +401,108 @@ def assign_unit(plan):
     plan.dropped.append(assign_unit.__doc__.strip())
 
 
+SCOPE_MODEL = """
+// model for FunctionScope (src/interpreter/src/functions.rs): the three pieces of caller state a function call replaces and must restore.
+// Reference-counted handles are identities; `self.state.borrow_mut()` / `p.state` is the `&mut ProgramState` parameter `state_brrw`.
+#[derive(Clone, Copy, PartialEq, Eq, Structural)]
+pub struct SymbolTableRef { pub id: u64 }
+impl SymbolTableRef { pub fn clone(&self) -> (r: SymbolTableRef) ensures r == *self, { *self } }
+#[derive(Clone, Copy, PartialEq, Eq, Structural)]
+pub struct Plan { pub id: u64 }
+pub uninterp spec fn empty_plan() -> Plan;
+impl Plan {
+  pub fn clone(&self) -> (r: Plan) ensures r == *self, { *self }
+  #[verifier::external_body]
+  pub fn new() -> (r: Plan) ensures r == empty_plan(), { unimplemented!() }
+}
+#[derive(Clone, Copy, PartialEq, Eq, Structural)]
+pub struct DictRef { pub id: u64 }
+impl DictRef { pub fn clone(&self) -> (r: DictRef) ensures r == *self, { *self } }
+pub struct SymbolTable { pub dictionary: DictRef, pub id: u64 }
+pub uninterp spec fn fresh_table() -> SymbolTable;
+impl SymbolTable {
+  #[verifier::external_body]
+  pub fn new() -> (r: SymbolTable) ensures r == fresh_table(), { unimplemented!() }
+}
+pub uninterp spec fn ref_of(t: SymbolTable) -> SymbolTableRef;
+#[verifier::external_body]
+pub fn ref_new(t: SymbolTable) -> (r: SymbolTableRef) ensures r == ref_of(t), { unimplemented!() }          // Ref::new
+pub struct ProgramState { pub symbol_table: SymbolTableRef, pub plan: Plan, pub environment: Option<SymbolTableRef>, pub dictionary: DictRef }
+pub struct FunctionScope { pub previous_symbols: SymbolTableRef, pub previous_plan: Plan, pub previous_environment: Option<SymbolTableRef> }
+#[verifier::external_body]
+pub fn replace_symbols(dst: &mut SymbolTableRef, v: SymbolTableRef) -> (old_: SymbolTableRef) ensures old_ == *old(dst), *final(dst) == v, { unimplemented!() }   // std::mem::replace
+#[verifier::external_body]
+pub fn replace_plan(dst: &mut Plan, v: Plan) -> (old_: Plan) ensures old_ == *old(dst), *final(dst) == v, { unimplemented!() }                                     // std::mem::replace
+#[verifier::external_body]
+pub fn take_environment(dst: &mut Option<SymbolTableRef>) -> (old_: Option<SymbolTableRef>) ensures old_ == *old(dst), *final(dst) is None, { unimplemented!() }   // Option::take
+// `std::thread::panicking()`: may answer anything (a scope is also dropped while a panic unwinds, and interpret() turns that panic into an error)
+#[verifier::external_body]
+pub fn panicking() -> (b: bool) { unimplemented!() }
+"""
+
+
+def scope_unit(plan):
+    """FunctionScope (src/interpreter/src/functions.rs): `enter` and `Drop::drop`, whole bodies; `p.state.clone()` / `.borrow_mut()` / `drop(state_brrw)` and the
+    `state` field are dropped (the state is the parameter `state_brrw: &mut ProgramState`); `std::mem::replace(&mut state_brrw.F, v)` -> `replace_F(..)`,
+    `state_brrw.environment.take()` -> `take_environment(..)`, `Ref::new` -> `ref_new`, `std::thread::panicking()` -> `panicking()` (arbitrary)"""
+    from vlib import find_code
+    text = read_repo("src/interpreter/src/functions.rs")
+    names = {"enter": "C05.verus.FunctionScope.enter.saves_caller_state", "drop": "C05.verus.FunctionScope.drop.restores_caller_state"}
+    plan.ob(names["enter"], "verus", "proved", functions=["src/interpreter/src/functions.rs: FunctionScope::enter"],
+            what="entering a function scope records the caller's symbol table, plan and environment in the scope object (and installs a fresh table, an empty plan, no environment)")
+    plan.ob(names["drop"], "verus", "proved", functions=["src/interpreter/src/functions.rs: impl Drop for FunctionScope"],
+            what="leaving a function scope -- on EVERY path, including while a panic unwinds -- restores exactly the symbol table, plan and environment the scope recorded: a call that fails leaves the caller's bindings and set of names as before")
+    items, fns = [SCOPE_MODEL], {}
+    try:
+        m = find_code(text, r"impl\s+FunctionScope\s*\{")
+        if not m:
+            raise AnchorLost("impl FunctionScope not found")
+        sig, body = extract_fn(text[m.start():match_brace(text, m.end() - 1)], "enter")
+        b = re.sub(r"//[^\n]*", "", body[body.index("{") + 1:body.rindex("}")])
+        b, n1 = re.subn(r"let\s+state\s*=\s*p\.state\.clone\(\)\s*;", "", b)
+        b, n2 = re.subn(r"let\s+mut\s+state_brrw\s*=\s*state\.borrow_mut\(\)\s*;", "", b)
+        b, n3 = re.subn(r"\bdrop\(\s*state_brrw\s*\)\s*;", "", b)
+        b, n4 = re.subn(r"\bstate\s*,", "", b, count=1)
+        if (n1, n2, n3, n4) != (1, 1, 1, 1):
+            raise AnchorLost("FunctionScope::enter: the state handle statements have an unexpected shape")
+        b = re.sub(r"std::mem::replace\(\s*&mut\s+state_brrw\.symbol_table\s*,", "replace_symbols(&mut state_brrw.symbol_table,", b)
+        b = re.sub(r"std::mem::replace\(\s*&mut\s+state_brrw\.plan\s*,", "replace_plan(&mut state_brrw.plan,", b)
+        b = re.sub(r"state_brrw\.environment\.take\(\)", "take_environment(&mut state_brrw.environment)", b)
+        b = b.replace("Ref::new(", "ref_new(").replace("Self {", "FunctionScope {")
+        if re.search(r"\b(mem::replace|borrow_mut|Ref::new)\b", b):
+            raise AnchorLost("FunctionScope::enter: statements outside the transcription rules")
+        items.append("fn enter(state_brrw: &mut ProgramState) -> (scope: FunctionScope)\n  ensures scope.previous_symbols == old(state_brrw).symbol_table, scope.previous_plan == old(state_brrw).plan, scope.previous_environment == old(state_brrw).environment,\n"
+                     "    final(state_brrw).plan == empty_plan(), final(state_brrw).environment is None, final(state_brrw).dictionary == old(state_brrw).dictionary,\n{\n" + b + "\n}\n")
+        fns["enter"] = names["enter"]
+    except AnchorLost as e:
+        plan.anchor_errors.append((names["enter"], str(e)))
+    try:
+        m = find_code(text, r"impl\s+Drop\s+for\s+FunctionScope\s*\{")
+        if not m:
+            raise AnchorLost("impl Drop for FunctionScope not found")
+        sig, body = extract_fn(text[m.start():match_brace(text, m.end() - 1)], "drop")
+        b = re.sub(r"//[^\n]*", "", body[body.index("{") + 1:body.rindex("}")])
+        b, n1 = re.subn(r"let\s+mut\s+state_brrw\s*=\s*self\.state\.borrow_mut\(\)\s*;", "", b)
+        if n1 != 1:
+            raise AnchorLost("Drop for FunctionScope: `let mut state_brrw = self.state.borrow_mut();` not found")
+        b = b.replace("std::thread::panicking()", "panicking()").replace("self.", "self_.")
+        if re.search(r"\b(borrow_mut|std::)\b", b):
+            raise AnchorLost("Drop for FunctionScope: statements outside the transcription rules")
+        items.append("fn drop(self_: &mut FunctionScope, state_brrw: &mut ProgramState)\n  ensures final(state_brrw).symbol_table == old(self_).previous_symbols, final(state_brrw).plan == old(self_).previous_plan, final(state_brrw).environment == old(self_).previous_environment,\n{\n" + b + "\n}\n")
+        fns["drop"] = names["drop"]
+    except AnchorLost as e:
+        plan.anchor_errors.append((names["drop"], str(e)))
+    if fns:
+        items.append(vlib.verus_canary("canary_scope", "x: u64", []))
+        plan.verus.append(VerusUnit("c05_scope", vlib.verus_file(items), fns, ["canary_scope"]))
+        plan.dropped.append(scope_unit.__doc__.strip())
+
+
 def plan(plan, tier, seed):
+    try:
+        scope_unit(plan)
+    except AnchorLost as e:
+        plan.anchor_errors.append(("C05.verus.FunctionScope.*", str(e)))
     try:
         verus_unit(plan)
     except AnchorLost as e:
